@@ -51,6 +51,7 @@ type tr struct {
 	tparams   map[string]bool
 	ifaces    map[string]*ast.InterfaceType
 	named     map[string]ast.Expr // type X <not a struct, not an interface>
+	constIota map[string]int      // position of a constant in its const block
 }
 
 // ---------------------------------------------------------------- types (a type is its Gallina text)
@@ -457,12 +458,14 @@ type fctx struct {
 	cont  func() string
 	elem  map[*ast.Object][2]string // `for i := range xs`: i -> (source text of xs, Gallina name of xs[i])
 	made  ast.Node                  // the make(chan) of this function (at most one)
+	iota  int                       // value of iota while a constant's expression is translated
+	rev   map[*ast.RangeStmt]bool   // synthesized from `for i := len(xs)-1; i >= 0; i--`: runs over the slice backwards
 	owned map[*ast.Object]bool      // locals initialised by a struct literal: the only non-receiver variables whose fields may be assigned
 }
 
 var reserved = strings.Fields(`as at cofix else end exists exists2 fix for forall fun if IF in let match mod Prop return
   Set then Type using where with by effs_ lookup update isSome odef zlen slice_to slice_from Ret Panic app negb true false
-  Some None tt fst snd effs_1 slen nth length Z bool string list option alist unit nil cons res effect andb orb`)
+  Some None tt fst snd effs_1 slen nth rev length Z bool string list option alist unit nil cons res effect andb orb`)
 
 func (c *fctx) fresh(base string) string {
 	for _, ch := range base {
@@ -501,7 +504,7 @@ func (t *tr) translate(f *fn) {
 	if f.mut && !f.ptrRecv {
 		t.fail(f.d, "method %s, which modifies a value receiver", f.key)
 	}
-	c := &fctx{t: t, f: f, names: map[*ast.Object]string{}, types: map[*ast.Object]string{}, used: map[string]bool{}, elem: map[*ast.Object][2]string{}, owned: map[*ast.Object]bool{}}
+	c := &fctx{t: t, f: f, names: map[*ast.Object]string{}, types: map[*ast.Object]string{}, used: map[string]bool{}, elem: map[*ast.Object][2]string{}, owned: map[*ast.Object]bool{}, rev: map[*ast.RangeStmt]bool{}}
 	for _, r := range reserved {
 		c.used[r] = true
 	}
@@ -529,6 +532,28 @@ func (t *tr) translate(f *fn) {
 	for i, p := range f.params {
 		fmt.Fprintf(&hdr, " (%s : %s)", c.declare(p, f.ptypes[i]), f.ptypes[i])
 	}
+	named := "" // named results are locals that start at their zero values
+	if f.d.Type.Results != nil {
+		i := 0
+		for _, r := range f.d.Type.Results.List {
+			for _, id := range r.Names {
+				usedInBody := false
+				ast.Inspect(f.d.Body, func(n ast.Node) bool {
+					if x, ok := n.(*ast.Ident); ok && x.Obj != nil && x.Obj == id.Obj {
+						usedInBody = true
+					}
+					return !usedInBody
+				})
+				if id.Name != "_" && usedInBody {
+					named += "let " + c.declare(id, f.results[i]) + " : " + f.results[i] + " := " + t.zero(f.results[i]) + " in\n"
+				}
+				i++
+			}
+			if len(r.Names) == 0 {
+				i++
+			}
+		}
+	}
 	end := func() string {
 		if len(f.results) > 0 {
 			t.fail(f.d, "control reaching the end of %s without return", f.key)
@@ -548,6 +573,7 @@ func (t *tr) translate(f *fn) {
 	} else {
 		body = c.block(stmts, end)
 	}
+	body = named + body
 	if f.eff {
 		body = "let effs_ : list effect := [] in\n" + body
 	}
@@ -740,6 +766,20 @@ func (c *fctx) stmt(s ast.Stmt, k func() string) string {
 		}
 	case *ast.RangeStmt:
 		return c.rangeStmt(s, k)
+	case *ast.ForStmt: // only  for i := len(xs) - 1; i >= 0; i-- { ... }: a range over xs backwards
+		if init, ok := s.Init.(*ast.AssignStmt); ok && init.Tok == token.DEFINE && len(init.Lhs) == 1 && len(init.Rhs) == 1 {
+			i, _ := init.Lhs[0].(*ast.Ident)
+			post, _ := s.Post.(*ast.IncDecStmt)
+			if i != nil && post != nil && post.Tok == token.DEC && t.src(post.X) == i.Name && t.src(s.Cond) == i.Name+" >= 0" {
+				if b, ok := init.Rhs[0].(*ast.BinaryExpr); ok && b.Op == token.SUB && t.src(b.Y) == "1" {
+					if l, ok := b.X.(*ast.CallExpr); ok && t.src(l.Fun) == "len" && len(l.Args) == 1 {
+						r := &ast.RangeStmt{For: s.For, Key: i, Tok: token.DEFINE, X: l.Args[0], Body: s.Body}
+						c.rev[r] = true
+						return c.rangeStmt(r, k)
+					}
+				}
+			}
+		}
 	}
 	t.fail(s, "statement %s", firstLine(t.src(s)))
 	return ""
@@ -1100,6 +1140,7 @@ func (c *fctx) rangeStmt(s *ast.RangeStmt, k func() string) string {
 	}
 	// variables declared outside the loop and assigned inside it are carried through the iterations
 	var carried, carriedT []string
+	var carriedPos []token.Pos
 	seen := map[string]bool{}
 	carry := func(e ast.Expr) {
 		r := rootIdent(e)
@@ -1110,7 +1151,13 @@ func (c *fctx) rangeStmt(s *ast.RangeStmt, k func() string) string {
 			return
 		}
 		seen[c.names[r.Obj]] = true
-		carried, carriedT = append(carried, c.names[r.Obj]), append(carriedT, c.types[r.Obj])
+		at := len(carried) // kept in order of declaration, so that reordering the assignments does not reorder them
+		for at > 0 && carriedPos[at-1] > r.Obj.Pos() {
+			at--
+		}
+		carried = append(carried[:at], append([]string{c.names[r.Obj]}, carried[at:]...)...)
+		carriedT = append(carriedT[:at], append([]string{c.types[r.Obj]}, carriedT[at:]...)...)
+		carriedPos = append(carriedPos[:at], append([]token.Pos{r.Obj.Pos()}, carriedPos[at:]...)...)
 	}
 	effs := false
 	keyUses, elemUses := 0, 0
@@ -1156,11 +1203,15 @@ func (c *fctx) rangeStmt(s *ast.RangeStmt, k func() string) string {
 		elem = c.fresh("x_")
 	}
 	params, args, next := "("+lst+" : "+xt+")", paren(xs), tail
+	i0, step := "0", " + 1"
+	if c.rev[s] {
+		args, i0, step = "(rev "+paren(xs)+")", "(zlen "+paren(xs)+" - 1)", " - 1"
+	}
 	if key != nil && key.Name != "_" {
 		c.elem[key.Obj] = [2]string{xsSrc, elem}
 		if keyUses > elemUses { // the index itself is used
 			i := c.declare(key, "Z")
-			params, args, next = params+" ("+i+" : Z)", args+" 0", next+" ("+i+" + 1)"
+			params, args, next = params+" ("+i+" : Z)", args+" "+i0, next+" ("+i+step+")"
 		}
 	}
 	for i, v := range carried {
